@@ -301,7 +301,7 @@ def run(tier):
     # (e) target platform: the packages are loaded for GOARCH (build constraints, int and pointer width), so the
     # sizes quoted in messages - and compared with the thresholds - must be that platform's. The same padded
     # types are measured by a program compiled *for* 386 and executed; every front-end is run with GOARCH=386.
-    env386 = dict(vlib.goenv(), GOARCH="386")
+    env386 = dict(vlib.goenv(), GOARCH="386", CGO_ENABLED="0")
     rc, so, se = vlib.sh(["go", "run", "./sizeof"], cwd=ws, env=env386, timeout=600)
     sizeof386 = {}
     if rc == 0:
